@@ -187,6 +187,64 @@ def run(report, db, tier):
     R5 = report.rule('R18.5', 'wrappers are single pass-through updates '
                      '(continuous stream, any segmentation)')
     shared.wrapper_passthrough_ps(report, R5, db)
+    # everything sent goes through the cipher: the wrapper encrypts in
+    # send() only, so (a) the frame writer and the wire types call nothing
+    # but send() on their socket, and (b) the wrappers do not hand out the
+    # raw socket's other methods (a catch-all attribute forwarder would make
+    # sendall / sendmsg / write reach the socket unencrypted)
+    R7 = report.rule('R18.7', 'all bytes go through the cipher: writers call '
+                     'only send() on their socket, and the cipher wrappers '
+                     'forward no attribute they do not define')
+    nsend = 0
+    for fi2 in db.funcs:
+        if isinstance(fi2.node, ast.Lambda) or not (
+                fi2.module.name.startswith('minecraft.networking.packets')
+                or fi2.module.name.startswith('minecraft.networking.types')):
+            continue
+        names = list(fi2.params)
+        if fi2.kind in ('instance', 'class') and names:
+            names = names[1:]
+        pos = {'send': 1, 'send_with_context': 1, '_write_buffer': 0,
+               'write': 0}.get(fi2.name)
+        if pos is None or len(names) <= pos or fi2.cls is None:
+            continue
+        sk = names[pos]
+        for x in ast.walk(fi2.node):
+            if isinstance(x, ast.Attribute) and isinstance(
+                    x.value, ast.Name) and x.value.id == sk and \
+                    isinstance(x.ctx, ast.Load):
+                nsend += 1
+                if x.attr != 'send':
+                    report.violation(
+                        R7, 'sink:method:%s' % fi2.qualname, fi2.path, x,
+                        fi2.qualname, 'socket.%s is used on the socket a '
+                        'packet is written to: once encryption is on, that '
+                        'socket is the cipher wrapper, which encrypts in '
+                        'send() only' % x.attr)
+            if isinstance(x, ast.Call) and isinstance(x.func, ast.Name) and \
+                    x.func.id in ('hasattr', 'getattr') and x.args and \
+                    isinstance(x.args[0], ast.Name) and \
+                    x.args[0].id == sk:
+                report.violation(
+                    R7, 'sink:probe:%s' % fi2.qualname, fi2.path, x,
+                    fi2.qualname, 'the writer probes its socket for other '
+                    'methods (%s): what it finds on the cipher wrapper is '
+                    'not encrypted' % ast.unparse(x)[:50])
+    report.floor('uses of a writer\'s socket', nsend, 12)
+    for wn in ('EncryptedSocketWrapper', 'EncryptedFileObjectWrapper'):
+        wci = db.get_class(ENC, wn)
+        for hook in ('__getattr__', '__getattribute__'):
+            hf = db.find_method(wci, hook)
+            if hf is not None:
+                report.violation(
+                    R7, 'wrapper:forwarder:%s' % wn, hf.path, hf.node,
+                    hf.qualname, '%s.%s hands out attributes of the raw '
+                    'socket / file: sendall, sendmsg, write, readinto ... '
+                    'reached through it bypass the cipher and leave its '
+                    'stream position behind' % (wn, hook))
+    if not any(f.rule == R7 for f in report.violations):
+        report.ok(R7, '%d uses of a writer\'s socket are send(); the '
+                  'wrappers forward nothing they do not define' % nsend)
     R6 = report.rule('R18.6', 'nothing reads the connection socket through '
                      'recv(): the decryptor shared by both wrappers cannot '
                      'be desynchronised')
